@@ -418,10 +418,10 @@ func checkEvents(l *eventLog, wantAdded, wantRemoved map[uint32]bool, removedAll
 	return "", ""
 }
 
-var seqAlphabet = []string{"regA", "regB", "regInvalid", "readyLast", "readyFirst", "readyNever", "unregLast", "unregFirst", "unregNever", "updateLast", "updateRename", "updateInvalid", "serviceA", "serviceB", "services"}
+var seqAlphabet = []string{"regA", "regB", "regInvalid", "readyLast", "readyFirst", "readyNever", "unregLast", "unregFirst", "unregNever", "updateLast", "updateRename", "updateInvalid", "updateZeroId", "serviceA", "serviceB", "services"}
 
 func c15(c *wk.Ctx) {
-	c.Note("rule", "streams: seq = operation sequences over two names applied remotely to one directory and compared step by step with a sequential model (register / ready / unregister / update / service / services with symbolic ids: the last / first id issued in the sequence, an id never issued; invalid infos; renames), random length <= 8 (quick) and exhaustive to length 3 over a 15-symbol alphabet plus sampled longer ones (thorough), clean-up between sequences so that 'never reused' spans sequences; conc = concurrent histories of 3-5 remote clients (ServiceDirectory proxy) plus 1-2 local goroutines (Server.NewService = register+ready sharing one interval, Service.Terminate) over 3-4 names, <= 40 operations, checked with porcupine against the same model; serviceAdded/serviceRemoved events collected by another session must be exactly one per successful ready / unregister-of-ready, in that order. race = 20-60 rounds per world in which the server's local NewService (register + ready) overlaps a remote unregister of the identifier it is about to get: per identifier the events on one connection are none, or one added followed by one removed. Race detector reports inside bus/directory are violations. Distinct non-trivial = distinct sequences (seq) / histories with at least one overlapping local-remote pair (conc).")
+	c.Note("rule", "streams: seq = operation sequences over two names applied remotely to one directory and compared step by step with a sequential model (register / ready / unregister / update / service / services with symbolic ids: the last / first id issued in the sequence, an id never issued; invalid infos; renames), random length <= 8 (quick) and exhaustive to length 3 over a 16-symbol alphabet plus sampled longer ones (thorough), clean-up between sequences so that 'never reused' spans sequences; conc = concurrent histories of 3-5 remote clients (ServiceDirectory proxy) plus 1-2 local goroutines (Server.NewService = register+ready sharing one interval, Service.Terminate) over 3-4 names, <= 40 operations, checked with porcupine against the same model; serviceAdded/serviceRemoved events collected by another session must be exactly one per successful ready / unregister-of-ready, in that order. race = 20-60 rounds per world in which the server's local NewService (register + ready) overlaps a remote unregister of the identifier it is about to get: per identifier the events on one connection are none, or one added followed by one removed. Race detector reports inside bus/directory are violations. Distinct non-trivial = distinct sequences (seq) / histories with at least one overlapping local-remote pair (conc).")
 	c15seq(c)
 	c15conc(c)
 	c15race(c)
@@ -657,6 +657,13 @@ func (sw *seqWorld) runSequence(symbols []string) (string, string, []string) {
 			in = dirIn{Op: "ready", ID: pickID(sym[5:])}
 		case "unregLast", "unregFirst", "unregNever":
 			in = dirIn{Op: "unregister", ID: pickID(sym[5:])}
+		case "updateZeroId":
+			// identifier 0 (never assigned) with the name of a service that is ready, if there is one
+			name := "nameA"
+			if len(sw.model.ready) > 1 {
+				name = sw.model.ready[len(sw.model.ready)-1].name
+			}
+			in = dirIn{Op: "update", ID: 0, Name: name, Tag: newTag(), Valid: true}
 		case "updateLast", "updateRename", "updateInvalid":
 			id := pickID("Last")
 			name := "nameA"
